@@ -25,6 +25,7 @@ import (
 	"github.com/honeycombio/refinery/logger"
 	"github.com/honeycombio/refinery/metrics"
 	"github.com/honeycombio/refinery/sample"
+	"github.com/honeycombio/refinery/transmit"
 	"github.com/honeycombio/refinery/types"
 	cq "github.com/honeycombio/refinery/verifharness/coqfmt"
 )
@@ -53,6 +54,7 @@ type c28Input struct {
 	Rate   int64          `json:"rate,omitempty"`
 	Tids   []string       `json:"tids,omitempty"`
 	Rules  map[string]any `json:"rules,omitempty"` // Samplers section
+	Main   map[string]any `json:"main,omitempty"`  // sections of the main configuration file (kind mainconfig)
 	Reqs   []c28Req       `json:"reqs,omitempty"`
 }
 
@@ -336,8 +338,27 @@ func c28Gen(r *rand.Rand, tier string, i int) any {
 			in.Tids = append(in.Tids, c17RandTid(r))
 		}
 		return in
-	case x < 80:
+	case x < 72:
 		return c28Input{Kind: "config", Rules: c28Rules(r)}
+	case x < 80:
+		tr := map[string]any{}
+		durs := []string{"1ns", "3ns", "4ns", "1us", "1ms", "100ms", "1s", "0s", "2562047h"}
+		if r.Intn(4) > 0 {
+			tr["BatchTimeout"] = durs[r.Intn(len(durs))]
+		}
+		if r.Intn(3) == 0 {
+			tr["SendTicker"] = durs[r.Intn(len(durs))]
+		}
+		if r.Intn(3) == 0 {
+			tr["SendDelay"] = durs[r.Intn(len(durs))]
+		}
+		if r.Intn(3) == 0 {
+			tr["MaxBatchSize"] = []int64{0, 1, 2, 500, 1 << 31, 1 << 40}[r.Intn(6)]
+		}
+		if r.Intn(4) == 0 {
+			tr["TraceTimeout"] = []string{"1s", "60s", "999ms", "2562047h"}[r.Intn(4)]
+		}
+		return c28Input{Kind: "mainconfig", Main: map[string]any{"Traces": tr}}
 	default:
 		in := c28Input{Kind: "requests"}
 		n := 6 + r.Intn(8)
@@ -384,9 +405,16 @@ func c28NormNums(v any) any {
 	return v
 }
 
-func c28LoadConfig(dir string, samplers map[string]any) (config.Config, error) {
+func c28LoadConfig(dir string, samplers map[string]any, mainSections ...map[string]any) (config.Config, error) {
 	samplers, _ = c28NormNums(samplers).(map[string]any)
 	main := "General:\n  ConfigurationVersion: 2\nRefineryTelemetry:\n  AddRuleReasonToTrace: true\n"
+	if len(mainSections) > 0 && mainSections[0] != nil {
+		mb, err := yaml.Marshal(c28NormNums(mainSections[0]))
+		if err != nil {
+			return nil, err
+		}
+		main += string(mb)
+	}
 	rules := map[string]any{"RulesVersion": 2, "Samplers": samplers}
 	rb, err := yaml.Marshal(rules)
 	if err != nil {
@@ -509,6 +537,28 @@ func c28Child(raw json.RawMessage) (Case, error) {
 		if cfg != nil {
 			res.Accepted = true
 			c28BuildAndDecide(cfg, &res, nil)
+		} else if err != nil {
+			res.RejectMsg = err.Error()
+		}
+	case "mainconfig":
+		samplers := map[string]any{"__default__": map[string]any{"DeterministicSampler": map[string]any{"SampleRate": 1}}}
+		cfg, err := c28LoadConfig(dir, samplers, in.Main)
+		c28Marker("loaded")
+		if cfg != nil {
+			res.Accepted = true
+			// the two transmissions exactly as cmd/refinery/main.go builds them from the configuration
+			tc := cfg.GetTracesConfig()
+			mn := newCrossMemNet()
+			for _, tt := range []types.TransmitType{types.TransmitTypeUpstream, types.TransmitTypePeer} {
+				tx := transmit.NewDirectTransmission(tt, mn.Transport(), int(tc.GetMaxBatchSize()), time.Duration(tc.GetBatchTimeout()), 2*time.Second, false, nil)
+				tx.Config, tx.Logger, tx.Metrics, tx.Version = cfg, &logger.NullLogger{}, &metrics.NullMetrics{}, "verif"
+				tx.Start()
+				tx.EnqueueEvent(&types.Event{Context: context.Background(), APIHost: "http://nowhere.test:80", APIKey: crossLegacyKey, Dataset: "ds",
+					Data: types.NewPayload(cfg, map[string]any{"a": 1})})
+				time.Sleep(20 * time.Millisecond)
+				tx.Stop()
+			}
+			res.Samplers = 2
 		} else if err != nil {
 			res.RejectMsg = err.Error()
 		}
@@ -705,7 +755,7 @@ func c28Run(raw json.RawMessage) (Case, error) {
 		if in.Rate >= 1<<32 {
 			tags = append(tags, "rate>=2^32")
 		}
-	case "config":
+	case "config", "mainconfig":
 		acc := res.Accepted
 		loadCrashed, runCrashed := false, false
 		if crashed || hung {
@@ -717,6 +767,10 @@ func c28Run(raw json.RawMessage) (Case, error) {
 			}
 		}
 		sig := c28Signature(in.Rules, tail)
+		if in.Kind == "mainconfig" {
+			sig = c28MainSignature(in.Main, tail)
+			sum["main"] = in.Main
+		}
 		kind = cq.App("KConfig", cq.Bool(acc), cq.Bool(loadCrashed), cq.Bool(runCrashed), cq.N(sig))
 		sum["accepted"] = acc
 		if sig != 0 {
@@ -776,6 +830,18 @@ func c28Signature(rules map[string]any, stderr string) uint64 {
 	switch {
 	case shortInterval && strings.Contains(stderr, "assignment to entry in nil map") && strings.Contains(stderr, "dynsampler-go.(*EMAThroughput).GetSampleRateMulti"):
 		return 1
+	}
+	return 0
+}
+
+// c28MainSignature: 2 = Traces.BatchTimeout with 0 < d < 4ns (batchTimeout/4 == 0) AND the child died with
+// "non-positive interval for NewTicker" in DirectTransmission.dispatchStaleBatches; anything else 0.
+func c28MainSignature(main map[string]any, stderr string) uint64 {
+	tr, _ := main["Traces"].(map[string]any)
+	bt, _ := tr["BatchTimeout"].(string)
+	d, err := time.ParseDuration(bt)
+	if err == nil && d > 0 && d < 4 && strings.Contains(stderr, "non-positive interval for NewTicker") && strings.Contains(stderr, "dispatchStaleBatches") {
+		return 2
 	}
 	return 0
 }
